@@ -3,7 +3,11 @@ Model: coq/Model/Authorizer.v (over Model/Rbac.v); theorems: coq/Props/C03.v; im
 real proxy_authorizer::authorize / get_authorizer / Claims::from_audit_entry through
 harness/src/bin/c03.rs."""
 import json
+import os
+import pwd
+import re
 
+import e2e
 import vplib
 from vplib import cb, clist
 from checks.common import verdict
@@ -38,6 +42,155 @@ def granting_doc(rng, c, mode, default):
         "roles": [{"name": "r", "privileges": ["all"]}],
         "identities": [{"name": "me", "userName": c["u"], "groupName": None, "exePath": None, "processName": None}],
         "roleAssignments": [{"role": "r", "identities": ["me"]}]}}
+
+
+# ------------------------------------------------------------------------------------------------
+# The end-to-end half: the REAL ProxyServer (tools/e2e.py, notes/E2E.md) must relay nothing for a
+# non-elevated caller to WireServer / HostGAPlugin and for a record whose destination is the proxy's
+# own listener -- whatever the rules, the mode, the method/URL (the signature-exempt uploads and
+# their letter-case variants included) and whatever rule change happens on the open connection.
+# ------------------------------------------------------------------------------------------------
+PINNED_EXEMPT = [("PUT", "/vmAgentLog"), ("POST", "/machine/?comp=telemetrydata")]
+
+
+def exempt_pairs():
+    """the signature-exempt (method, url) pairs: the two named by the code's comment, pinned here, plus
+    whatever gen_consts.py found in should_skip_sig (Consts.skip_sig_pairs, lower-case urls)"""
+    pairs = list(PINNED_EXEMPT)
+    try:
+        txt = open(os.path.join(vplib.COQ, "Generated", "Consts.v")).read()
+        m = re.search(r"Definition skip_sig_pairs[^\n]*:=\s*\[(.*)\]\.", txt)
+        for a, b in re.findall(r"\(\[([0-9; ]*)\]%N, \[([0-9; ]*)\]%N\)", m.group(1) if m else ""):
+            dec = lambda t: bytes(int(x) for x in t.split(";") if x.strip()).decode("latin-1")
+            if (dec(a), dec(b)) not in [(x, y.lower()) for x, y in pairs]:
+                pairs.append((dec(a), dec(b)))
+    except OSError:
+        pass
+    return pairs
+
+
+def user_name(uid):
+    try:
+        return pwd.getpwuid(uid).pw_name
+    except KeyError:
+        return "undefined"
+
+
+def e2e_requests(rng, n):
+    """n raw requests: the exempt uploads, letter-case variants of them, near misses, ordinary reads"""
+    pool = []
+    for method, url in exempt_pairs():
+        body = b"2026-10-01T00:00:00Z line\n" * 3 if method == "PUT" else b"<?xml version=\"1.0\"?><TelemetryData/>"
+        variants = [url, url.upper(), url.lower(), G.recase(rng, url), G.recase(rng, url)]
+        for v in variants:
+            pool.append((method, v, body))
+        pool.append((method, url + ("&x=1" if "?" in url else "?x=1"), body))        # not exempt
+        pool.append(("GET", url, b""))                                                # not exempt
+        pool.append((method, url, b""))                                               # exempt, empty body
+    for t in ("/machine?comp=goalstate", "/", "/machine/?comp=telemetrydata", "/vmAgentLog", "/metadata/instance"):
+        pool.append(("GET", t, b""))
+    pool.append(("POST", "/machine?comp=telemetrydata", b"x"))
+    pool.append(("PUT", "/vmAgentLog/", b"x"))
+    exempt = {(m, u.lower()) for m, u in exempt_pairs()}
+    ex_pool = [p for p in pool if (p[0], p[1].lower()) in exempt]
+    out = []
+    for i in range(n):
+        # an exempt upload first and again right after the rule change (3rd request); the rest at random
+        m, t, b = rng.choice(ex_pool) if i in (0, 2) else rng.choice(pool)
+        out.append({"method": m, "target": t, "raw": e2e.http_request(m, t, [("x-ms-version", "2012-11-30")], b)})
+    return out
+
+
+def e2e_half(ctx, rng):
+    """returns (disagreements, failures, stats)"""
+    modes = ["disabled", "audit", "enforce", "Disabled", "bogus"]
+    defaults = ["allow", "deny"]
+    nobody, root = user_name(e2e.NOBODY_UID), user_name(0)
+    callers = [  # (label, audit record, endpoint of the rules, caller name, proxy_port)
+        ("nobody->WireServer", e2e.audit(e2e.WIRESERVER, uid=e2e.NOBODY_UID), "wireserver", nobody, None),
+        ("nobody->HostGA", e2e.audit(e2e.HOSTGA, uid=e2e.NOBODY_UID), "hostga", nobody, None),
+        ("uid0-not-admin->WireServer", e2e.audit(e2e.WIRESERVER, uid=0, is_admin=0), "wireserver", root, None),
+        ("uid0-is_admin2->HostGA", e2e.audit(e2e.HOSTGA, uid=0, is_admin=2), "hostga", root, None),
+        ("root->self(listener on 3080)", e2e.audit(e2e.SELF, uid=0), "wireserver", root, 3080),
+        ("nobody->self(listener on 3080)", e2e.audit(e2e.SELF, uid=e2e.NOBODY_UID), "hostga", nobody, 3080),
+        ("root->self(other listener port)", e2e.audit(e2e.SELF, uid=0), "imds", root, None),
+    ]
+
+    def grant(name, mode, default):
+        c = {"u": name}
+        return json.loads(G.doc_to_json(granting_doc(rng, c, mode, default)))
+
+    scs, meta = [], []
+
+    def add(label, record, endpoint, name, port, item, item2, refused=True):
+        reqs = e2e_requests(rng, 5)
+        raws = []
+        for j, r in enumerate(reqs):
+            if j == 1:      # the rules change while the connection stays open (a later request sees the new ones)
+                raws.append(e2e.req(r["raw"], ops_after=[{"op": "set_rules", "endpoint": endpoint, "item": item2}]))
+            else:
+                raws.append(e2e.req(r["raw"]))
+        knobs = {"proxy_port": port} if port else {}
+        rules = {endpoint: item} if item is not None else None
+        scs.append(e2e.scenario("%s rules=%s then %s" % (label, item and (item["mode"], item["defaultAccess"]),
+                                                         item2 and (item2["mode"], item2["defaultAccess"])),
+                                [e2e.conn(raws, audit=record)], rules=rules, **knobs))
+        meta.append({"label": label, "record": record, "endpoint": endpoint, "rules": item, "rules_after_2nd_request": item2,
+                     "requests": [(r["method"], r["target"]) for r in reqs], "refused": refused})
+
+    for label, record, endpoint, name, port in callers:
+        add(label, record, endpoint, name, port, None, grant(name, "disabled", "allow"))
+        for mode in modes:
+            default = rng.choice(defaults)
+            mode2 = rng.choice([m for m in modes if m != mode])
+            add(label, record, endpoint, name, port, grant(name, mode, default),
+                rng.choice([None, grant(name, mode2, rng.choice(defaults))]))
+    for _ in range(30 if ctx.quick else 300):                      # generated rule documents
+        label, record, endpoint, name, port = rng.choice(callers)
+        d1 = json.loads(G.doc_to_json(G.gen_doc(rng, malformed=rng.random() < 0.2)))
+        d2 = rng.choice([None, grant(name, rng.choice(modes), rng.choice(defaults))])
+        add(label, record, endpoint, name, port, d1, d2)
+    # controls: the same requests from an elevated caller ARE relayed (the harness can see a relay)
+    for dest, endpoint in ((e2e.WIRESERVER, "wireserver"), (e2e.HOSTGA, "hostga")):
+        for mode in ("disabled", "audit", "enforce"):
+            add("root->%s (control)" % dest, e2e.audit(dest, uid=0), endpoint, root, None,
+                grant(root, mode, "deny"), grant(root, "audit", "allow"), refused=False)
+
+    results = e2e.run_scenarios(ctx, scs, timeout=900, shards=4)
+    failures, disagreements = [], []
+    stats = {"scenarios": len(scs), "requests": 0, "refused_403": 0, "exempt_requests_refused": 0,
+             "control_requests_relayed": 0, "self_destination_requests": 0}
+    exempt = {(m, u.lower()) for m, u in exempt_pairs()}
+    for sc, mt, r in zip(scs, meta, results):
+        if not r.get("ok") or r.get("panics"):
+            raise RuntimeError("e2e scenario %r did not run: %s %s" % (sc["name"], r.get("error"), r.get("panics")))
+        st = e2e.statuses(r)[0]
+        nbytes = {h: sum(c["nbytes"] for c in v) for h, v in r["upstream"].items()}
+        case = {"scenario": mt, "statuses": st, "upstream_bytes": nbytes, "e2e_scenario": sc,
+                "replay": "python3 -c \"import sys,json; sys.path.insert(0,'tools'); import e2e,vplib; ctx=vplib.Ctx('C03','quick',0); "
+                          "r=e2e.run_scenarios(ctx,[json.load(open(sys.argv[1]))['failing_input']['e2e_scenario']])[0]; "
+                          "print(e2e.statuses(r), {h:[c['nbytes'] for c in v] for h,v in r['upstream'].items()}); ctx.cleanup()\" <this replay file>"}
+        stats["requests"] += len(mt["requests"])
+        if mt["refused"]:
+            if "self" in mt["label"]:
+                stats["self_destination_requests"] += len(st)
+            bad = [(q, s) for q, s in zip(mt["requests"], st + [None] * (len(mt["requests"]) - len(st))) if s != 403]
+            stats["refused_403"] += sum(1 for s in st if s == 403)
+            stats["exempt_requests_refused"] += sum(1 for q, s in zip(mt["requests"], st)
+                                                    if s == 403 and (q[0], q[1].lower()) in exempt)
+            if bad or any(nbytes.values()):
+                (m, t), s = bad[0] if bad else (mt["requests"][0], "403")
+                failures.append({"case": case, "impl": {"statuses": st, "upstream_bytes": nbytes},
+                                 "why": "end to end (%s): %s %s answered %s and %d bytes reached the mock hosts; a request of this caller must be refused with 403 and not one byte relayed (rules %s, after the 2nd request %s)" % (
+                                     mt["label"], m, t, s, sum(nbytes.values()),
+                                     mt["rules"] and mt["rules"]["mode"], mt["rules_after_2nd_request"] and mt["rules_after_2nd_request"]["mode"])})
+        else:
+            relayed = sum(1 for s in st if s == 200)
+            stats["control_requests_relayed"] += relayed
+            if relayed != len(mt["requests"]) or not any(nbytes.values()):
+                disagreements.append({"case": case, "model": "every request of the elevated, granted caller is relayed (200)",
+                                      "impl": {"statuses": st, "upstream_bytes": nbytes}})
+    return disagreements, failures, stats
 
 
 def run(ctx):
@@ -164,18 +317,25 @@ def run(ctx):
         if (a == 1) != (ie is True):
             failures.append({"case": {"is_admin": a}, "why": "runAsElevated is %r for an audit record with is_admin = %d" % (ie, a), "impl": ie})
 
+    # ---------------- end-to-end half ----------------
+    e2e_dis, e2e_fail, e2e_stats = e2e_half(ctx, rng)
+    ctx.log("end to end: %s" % e2e_stats)
+    disagreements += e2e_dis
+    failures += e2e_fail
+    total += e2e_stats["requests"]
+
     ctx.coverage.update({
         "evaluations": total,
         "distinct_nontrivial": len({(json.dumps(doc, sort_keys=True), k["ip"], k["port"], k["claims"]["el"], k["url"]) for doc, cases in groups for k in cases}),
         "traces_validated_against_impl": total - len(disagreements),
-        "rule": "authorize() on (destination, claims, URL, rule set) tuples: %d generated rule documents (C02 generator incl. malformed / absent) x %d requests, destinations drawn from the four endpoints and 13 near misses, elevated 45%%; plus the full product 17 destinations x elevated x {disabled,audit,enforce,unknown} x {allow,deny} with a rule set that grants the caller by name, and rules absent; plus from_audit_entry on 9 is_admin values; distinct = distinct (document, destination, elevated, URL)" % (n_docs, per_doc),
+        "rule": "authorize() on (destination, claims, URL, rule set) tuples: %d generated rule documents (C02 generator incl. malformed / absent) x %d requests, destinations drawn from the four endpoints and 13 near misses, elevated 45%%; plus the full product 17 destinations x elevated x {disabled,audit,enforce,unknown} x {allow,deny} with a rule set that grants the caller by name, and rules absent; plus from_audit_entry on 9 is_admin values; plus end-to-end scenarios (7 caller/destination shapes x rules absent + 5 modes, generated documents, 5 keep-alive requests each incl. the signature-exempt uploads and case variants, set_rules after the 2nd request, 6 relayed controls); distinct = distinct (document, destination, elevated, URL)" % (n_docs, per_doc),
         "exhaustive": False,
         "samples": samples,
-        "input_distribution": dist,
+        "input_distribution": dict(dist, end_to_end=e2e_stats),
     })
     ctx.assumptions += [
         "the model is tied to the code by differential execution on the cases above, not by translation",
-        "end-to-end half (a refused request reaches no mock host) is covered by the C01 check, which imports Model/Authorizer.v",
+        "end-to-end half: the real ProxyServer in a private network namespace (tools/e2e.py), keep-alive connections of non-elevated callers to WireServer/HostGAPlugin and of records whose destination is 127.0.0.1:3080, rules changed between requests; predicate: every response 403 and zero bytes at every mock host",
         "the endpoints of the property text are pinned in the check as 168.63.129.16:80, 168.63.129.16:32526 and 127.0.0.1:3080",
         "results may follow either behaviour of Privilege::is_match on the rule path (C02 finding F1); C03 is proved for both",
     ]
